@@ -6,6 +6,7 @@ import (
 	"crypto/sha256"
 	"fmt"
 	"go/ast"
+	"go/constant"
 	"go/token"
 	"go/types"
 	"os"
@@ -398,6 +399,7 @@ func (r *Registry) specElemType(pkg *packages.Package, t *SType) types.Type {
 // finalGlobalLen: package-level slice variables initialised by a composite literal and never
 // assigned, indexed-assigned or address-taken in their package: their length is a known constant.
 var finalGlobalLen = map[string]int64{}
+var finalGlobalElems = map[string][]string{}
 
 // finalGlobalNonNil: package-level error variables created by fmt.Errorf / errors.New and never reassigned.
 var finalGlobalNonNil = map[string]bool{}
@@ -409,6 +411,7 @@ func (r *Registry) computeFinalGlobals() {
 		}
 		cand := map[*types.Var]int64{}
 		errCand := map[*types.Var]bool{}
+		elemCand := map[*types.Var][]string{}
 		for _, f := range p.Syntax {
 			for _, d := range f.Decls {
 				gd, ok := d.(*ast.GenDecl)
@@ -448,6 +451,20 @@ func (r *Registry) computeFinalGlobals() {
 						}
 						if !keyed {
 							cand[v] = int64(len(cl.Elts))
+							// constant string elements are remembered too
+							var elems []string
+							allStr := true
+							for _, e := range cl.Elts {
+								tv, ok := p.TypesInfo.Types[e]
+								if !ok || tv.Value == nil || tv.Value.Kind() != constant.String {
+									allStr = false
+									break
+								}
+								elems = append(elems, constant.StringVal(tv.Value))
+							}
+							if allStr {
+								elemCand[v] = elems
+							}
 						}
 					}
 				}
@@ -506,6 +523,9 @@ func (r *Registry) computeFinalGlobals() {
 		}
 		for v, n := range cand {
 			finalGlobalLen["g:"+v.Pkg().Path()+"."+v.Name()] = n
+			if es, ok := elemCand[v]; ok {
+				finalGlobalElems["g:"+v.Pkg().Path()+"."+v.Name()] = es
+			}
 		}
 		for v := range errCand {
 			finalGlobalNonNil["g:"+v.Pkg().Path()+"."+v.Name()] = true
